@@ -12,6 +12,7 @@ func init() {
 	for _, w := range []int{1, 2, 3} {
 		w := w
 		extraUniverses[fmt.Sprintf("U-3way-honest-w%d", w)] = func() *world.Universe { return world.Universe3WayW(false, w) }
+		extraUniverses[fmt.Sprintf("U-3way-w%d", w)] = func() *world.Universe { return world.Universe3WayW(true, w) }
 	}
 	moreScenarios = append(moreScenarios, c03Scenarios, c05Scenarios, c17Scenarios, c18Scenarios)
 	reg := func(id string, f func(core.Tier) []scenario) {
@@ -82,6 +83,12 @@ func c17Scenarios(tier core.Tier) []scenario {
 		out = append(out, scenario{Name: "c17.w" + w, Universe: "U-3way-honest-w" + w, Depth: 6 + d, Orcs: orcs,
 			Menu: chain.Menu{Recv: true, Sync: true, WalkAll: true, Play: true, Mine: 1, Restart: true, Blocks: []string{"a1", "a2", "a3", "b1", "b2", "b3", "d2"}}})
 	}
+	// walks that stop part-way: a block the ledger took and the state machine
+	// refuses (dup3 on a2, bv2 and cc2 on a1) in the middle of the range being synced
+	for _, w := range []string{"1", "2"} {
+		out = append(out, scenario{Name: "c17.bad.w" + w, Universe: "U-3way-w" + w, Depth: 5 + d, Orcs: orcs,
+			Menu: chain.Menu{Recv: true, Sync: true, WalkAll: true, Restart: true, Blocks: []string{"a1", "a2", "dup3", "bv2", "bv3", "b1", "b2", "b3"}}})
+	}
 	out = append(out, scenario{Name: "c17.w0", Universe: "U-3way-honest", Depth: 6 + d, Orcs: orcs,
 		Menu: chain.Menu{Recv: true, Sync: true, WalkSome: true, Mine: 1, Restart: true, Blocks: []string{"a1", "a2", "a3", "b1", "b2", "b3"}}})
 	out = append(out, scenario{Name: "c17.prune", Universe: "U-3way-honest-w1", Depth: 6 + d, Orcs: orcs,
@@ -95,6 +102,9 @@ func c18Scenarios(tier core.Tier) []scenario {
 	return []scenario{
 		{Name: "c18.kv", Universe: "U-kv", Depth: 8 + d, Orcs: orcs,
 			Menu: chain.Menu{Recv: true, Sync: true, WalkSome: true, Submit: []string{"pW1", "pR"}, Mine: 1}},
+		// a writer confirmed on the losing branch and pending again on the winning one
+		{Name: "c18.orphan", Universe: "U-kv-orphan", Depth: 8 + d, Orcs: orcs,
+			Menu: chain.Menu{Recv: true, Sync: true, Submit: []string{"kvT"}, Mine: 1, Restart: true}},
 		{Name: "c18.kv.restart", Universe: "U-kv", Depth: 7 + d, Orcs: orcs,
 			Menu: chain.Menu{Recv: true, Sync: true, Restart: true, Submit: []string{"pW1"}, Mine: 1, Blocks: []string{"k1", "k2", "k3", "k4"}}},
 	}
